@@ -334,7 +334,7 @@ impl Sim {
                 }
                 let ents: Vec<Entity> = d.entities.iter().map(|(e, _)| *e).collect();
                 self.clients[ci].used_idx.insert(d.index);
-                self.clients[ci].inflight.insert(d.index, (d.tick, self.frame_no, ents));
+                self.clients[ci].inflight.entry(d.index).or_default().push((d.tick, self.frame_no, ents, false));
             }
             if mine.len() > 1 {
                 self.obs.inc("ticks_with_split_mutations");
